@@ -155,6 +155,8 @@ def generate(rng, tier, run):
                 ops.append(['derive_delta', i, 'chain', rng.choice(DOM['math_mode_delimiter']), ch])
             else:
                 ops.append(['derive', i, ch])
+            if rng.random() < 0.25:
+                ops[-1].append('@lazy')      # the new state is not used for anything until later
     probes = [''.join(rng.choice(ALPHABET) for _ in range(rng.randint(2, 8))) for _ in range(6)]
     # seeded whole-parse probes: snippets whose reading depends on many different fields
     parse_probes = [''.join(rng.choice(PARSE_SNIPPETS) for _ in range(rng.randint(2, 5))) for _ in range(2)]
@@ -395,6 +397,10 @@ def execute(program):
         """The state still behaves as when it was created.  part = (k, n): only every n-th probe
         string starting at k (a corrupted shared table shows on many strings at once)."""
         st = live[j]
+        if st['behaviour'] is None:
+            # first use of a state that was left unused: full comparison with a fresh one
+            st['behaviour'] = compare_with_fresh(st['ps'], opi, j, st['strings'])
+            return
         strings = st['strings']
         pstrings = parse_strings
         if part is not None:
@@ -502,7 +508,14 @@ def execute(program):
                         raise Violation('derived-fields-as-requested', op_index=opi, state=j, field=k,
                                         observed=got.get(k), expected=want[k])
                     check_others_unchanged(opi, before)
-                    b = compare_with_fresh(child, opi, len(live), base_strings)
+                    lazy = op[-1] == '@lazy'
+                    if lazy:
+                        # not tokenized or parsed with before something is derived from it
+                        # (tables that are filled in on first use are still empty then)
+                        b = None
+                        stats.inc('probe:state-left-unused-until-later')
+                    else:
+                        b = compare_with_fresh(child, opi, len(live), base_strings)
                     # parent must still behave as when it was created
                     recheck_behaviour(opi, j, (opi, 3))
                     step = [int('latex_group_delimiters' in effective),
@@ -609,6 +622,8 @@ def shrink_candidates(program):
             if op[1] > 9:
                 for j in range(10):
                     yield repl(['derive', j, op[2]])
+        if op[0] in ('derive', 'derive_delta') and op[-1] == '@lazy':
+            yield repl(op[:-1])
         if op[0] == 'derive_delta':
             eq = {'enter_math': {'in_math_mode': True, 'math_mode_delimiter': op[3]},
                   'leave_math': {'in_math_mode': False, 'math_mode_delimiter': None},
